@@ -135,6 +135,13 @@ func init() {
 						wantToks = append(wantToks, tok)
 					}
 				}
+				if it%4 == 1 {
+					// a chart sheet in the workbook's sheet list: it is no worksheet and no page
+					at := it / 4 % (len(sheets) + 1)
+					sheets = append(sheets[:at], append([][2]string{{"Chart 1", "rIdChart"}}, sheets[at:]...)...)
+					rels = append(rels, [2]string{"rIdChart", "chartsheets/sheet1.xml"})
+					zms = append(zms, zipMember{Name: "xl/chartsheets/sheet1.xml", Data: []byte(`<?xml version="1.0"?><chartsheet xmlns="http://schemas.openxmlformats.org/spreadsheetml/2006/main"><sheetViews><sheetView workbookViewId="0"/></sheetViews></chartsheet>`)})
+				}
 				if rng.Chance(1, 3) { // unreferenced decoy
 					zms = append(zms, zipMember{Name: "xl/worksheets/sheet99.xml", Data: sheetXMLWithToken("tok99999x")})
 					members = append(members, [2]string{"xl/worksheets/sheet99.xml", "tok99999x"})
@@ -148,7 +155,11 @@ func init() {
 					wb.WriteString(`</sheets></workbook>`)
 					rl.WriteString(`<?xml version="1.0"?><Relationships xmlns="http://schemas.openxmlformats.org/package/2006/relationships">`)
 					for _, x := range shuffleStrs(rng, rels) {
-						fmt.Fprintf(&rl, `<Relationship Id="%s" Type="http://schemas.openxmlformats.org/officeDocument/2006/relationships/worksheet" Target="%s"/>`, x[0], x[1])
+						typ := "worksheet"
+						if x[0] == "rIdChart" {
+							typ = "chartsheet"
+						}
+						fmt.Fprintf(&rl, `<Relationship Id="%s" Type="http://schemas.openxmlformats.org/officeDocument/2006/relationships/%s" Target="%s"/>`, x[0], typ, x[1])
 					}
 					rl.WriteString(`<Relationship Id="rIdStyles" Type="http://schemas.openxmlformats.org/officeDocument/2006/relationships/styles" Target="styles.xml"/></Relationships>`)
 					all := []zipMember{{Name: "[Content_Types].xml", Data: []byte(`<?xml version="1.0"?><Types xmlns="http://schemas.openxmlformats.org/package/2006/content-types"/>`)},
@@ -451,6 +462,16 @@ func init() {
 						}
 					}
 					all := mkEPUB(opf, items, spineW, zms, rng.Chance(4, 5))
+					if it%3 == 0 {
+						// a second rootfile in the container (another rendition): the first one listed is the book
+						for mi := range all {
+							if all[mi].Name == "META-INF/container.xml" {
+								all[mi].Data = []byte(strings.Replace(string(all[mi].Data), `</rootfiles>`, `<rootfile full-path="alt/other.opf" media-type="application/oebps-package+xml"/></rootfiles>`, 1))
+							}
+						}
+						all = append(all, zipMember{Name: "alt/other.opf", Data: []byte(`<?xml version="1.0" encoding="UTF-8"?><package xmlns="http://www.idpf.org/2007/opf" version="3.0" unique-identifier="uid"><metadata xmlns:dc="http://purl.org/dc/elements/1.1/"><dc:identifier id="uid">x</dc:identifier><dc:title>other</dc:title><dc:language>en</dc:language></metadata><manifest><item id="o1" href="o1.xhtml" media-type="application/xhtml+xml"/></manifest><spine><itemref idref="o1"/></spine></package>`)},
+							zipMember{Name: "alt/o1.xhtml", Data: []byte(xhtmlDoc("other", "<p>tok99997x of the other rendition</p>"))})
+					}
 					all = shuffleMembers(rng, all, true)
 					var mo [][2]string
 					for _, m := range all {
